@@ -114,6 +114,7 @@ func snapshotProfile() Profile {
 	p.PDup, p.PLate = 0.06, 0.04
 	p.WSnapFault = 0.4
 	p.SnapChaos = 0.35
+	p.HoldSnapshot = 0.5
 	p.WStallThread = 3
 	p.WSlowNode = 2
 	return p
